@@ -21,7 +21,8 @@ EXPLANATION = (
     "implementations and the argument tokeniser is kind-guarded or inside a handler that raises IntrinsicFailure; (R4) no result depends on "
     "the iteration order of a set (hash seed); (R5) str.format is only applied to literals, never to user text; (R6) a regex built from data "
     "is escaped; (R7) the tokeniser alternative that recognises a nested call vs the nested grammar (regex AST); (R8) the intrinsic names the "
-    "validator accepts are exactly the implemented ones. Not decided: the value of every intrinsic on every argument.")
+    "validator accepts are exactly the implemented ones. Not decided: the value of every intrinsic on every argument."
+    ' (R10) the template expander (clone) is applied to (parts of) the template only, never to a name bound to the data parameters: a copy of the input is made with a data copier.')
 RULE_TEXT = "obligation = one dispatch site / intrinsic x sink / regex fact / table entry; non-trivial = distinct (rule, site)"
 
 
